@@ -19,8 +19,13 @@ def depth1():
 
 def depth2():
     progs = [('u', u, ('u', v, X)) for u in PRIMS for v in PRIMS]
-    progs += [('b', op, ('u', u, X), ('u', v, X)) for op in '-/' for u in PRIMS for v in PRIMS]
     progs += [('b', op, ('u', u, X), ('u', v, X)) for op in '+*' for i, u in enumerate(PRIMS) for v in PRIMS[i:]]
+    for i, u in enumerate(PRIMS):
+        for j in range(i + 1, len(PRIMS)):
+            v = PRIMS[j]
+            a, b = (u, v) if (i + j) % 2 == 0 else (v, u)       # every unordered pair once, orientation alternating
+            progs.append(('b', '-', ('u', a, X), ('u', b, X)))
+            progs.append(('b', '/', ('u', b, X), ('u', a, X)))
     # polynomials and rational functions
     progs += [
         ('b', '+', ('b', '-', ('p', X, 3), ('s', 2, ('p', X, 2))), ('b', '+', ('s', 0.5, X), ('c', 1))),
